@@ -357,11 +357,23 @@ def gen_layered(rng, cons_prob=0.0):
     if constrained:
         ids = [sc['id'] for sc in sel[:n_sys]]
         chosen = sorted(rng.sample(ids, 2))
+        deep = [sc['id'] for sc in sel[n_sys:] if len(sc['options']) == n_top_opts]
+        if deep and rng.random() < 0.3:
+            # a constraint between a top-level choice and a nested (conditionally active) one
+            chosen = sorted([rng.choice(ids), rng.choice(deep)])
         cons.append({'type': rng.choice(['linked', 'linked', 'permutation', 'unordered', 'norepl']), 'choices': chosen})
         if rng.random() < 0.4:
             cons[-1]['pass_seed'] = rng.randrange(1 << 16)
         if rng.random() < 0.7:
             incompat = []
+    if rng.random() < 0.3:
+        # decision ids that do not follow the depth of the choices (a nested choice may sort before a top-level one)
+        ids = [sc['id'] for sc in sel]
+        shuffled = list(ids)
+        rng.shuffle(shuffled)
+        perm = dict(zip(ids, shuffled))
+        sel = [dict(sc, id=perm[sc['id']]) for sc in sel]
+        cons = [dict(con, choices=sorted(perm[c] for c in con['choices'])) for con in cons]
     case = {'n': nid[0], 'edges': edges, 'sel': sel, 'start': [root], 'incompat': incompat, 'cons': cons}
     if rng.random() < 0.5:
         case['order'] = rng.randrange(1 << 30)
